@@ -6,6 +6,7 @@ from .. import terms as tm
 from .. import oracles
 from ..model import AnalysisError
 from .common import ob, need, call_name, is_lit, lit, role_of, roles
+from . import common
 from .. import symeval
 
 PROP = "C12"
@@ -379,6 +380,8 @@ def rule_cropshared(ctx):
 
 
 RULES = [
+    ("C12.MERGELOOKUP", 4, common.shared("c13", "rule_mergelookup", "C12.MERGELOOKUP")),
+    ("C12.DTYPEFLOW", 3, common.rule_dtypeflow("C12.DTYPEFLOW")),
     ("C12.CROPSHARED", 8, rule_cropshared),
     ("C12.FRAMEMAP", 4, rule_framemap),
     ("C12.NCEFORM", 5, rule_nceform_shared),
